@@ -709,11 +709,21 @@ pub fn decode_greeting(bytes: &[u8]) -> R<(Greeting, usize)> {
         let caps_hi = c.u16()?;
         caps |= (caps_hi as u32) << 16;
         auth_len = c.u8()?;
-        let _reserved = c.take(10)?;
+        let reserved = c.take(10)?;
+        if reserved.iter().any(|b| *b != 0) {
+            return mal("greeting: the 10 reserved bytes are not all 0");
+        }
         // CLIENT_SECURE_CONNECTION (0x8000): part 2 has max(13, auth_len - 8) bytes
         if caps & 0x8000 != 0 {
             let n = std::cmp::max(13, auth_len as i32 - 8) as usize;
             scramble2 = c.take(n)?.to_vec();
+            // part 2 is the rest of a NUL-terminated string of at least 20 bytes in all
+            if scramble2.last() != Some(&0) {
+                return mal("greeting: auth-plugin-data-part-2 is not NUL-terminated");
+            }
+            if scramble1.iter().chain(&scramble2[..scramble2.len() - 1]).any(|b| *b == 0) {
+                return mal("greeting: NUL inside the auth-plugin-data");
+            }
         }
         // CLIENT_PLUGIN_AUTH (1 << 19)
         if caps & (1 << 19) != 0 {
